@@ -144,6 +144,8 @@ class MixerRef(object):
     return max([s + len(d) for s, d in self.events] or [0])
 
   def left(self):
+    if self.ended:
+      return 0
     return float("inf") if self.keep else max(self.length() - self.pos, 0)
 
   def value_at(self, n):
@@ -254,6 +256,36 @@ def run_mixer(case):
         if not data:
           labels.add("empty event")
         labels.add("delta:" + ("zero" if delta == 0 else type(delta).__name__))
+    elif op == "add_chain":
+      # an event that, when it is exhausted, schedules the next event itself (an add() issued
+      # from inside the mixer's own summation, as in a sequencer whose notes chain each other)
+      delta, data, delta2, data2 = stp[1], stp[2], stp[3], stp[4]
+      hist.append("add(%r, %r then add(%r, %r))@%d" % (delta, data, delta2, data2, ref.pos))
+      if ref.ended:
+        continue
+
+      ref.add(delta, data)
+      begin = ref.events[-1][0]
+
+      def chained(items=[vs.real(x) for x in data], d2=delta2, items2=data2, moment=begin + len(data) + 1):
+        for v in items:
+          yield v
+        # runs while the mixer computes sample begin+len, on which this event turns out to be
+        # finished: the new event can start at the following sample at the earliest (the model's
+        # own position may lag behind here, e.g. inside take(k), so the moment is computed)
+        mix.add(d2, [vs.real(x) for x in items2])
+        saved = ref.pos
+        ref.pos = max(saved, moment)
+        ref.add(d2, items2)
+        ref.pos = saved
+      mix.add(delta, chained())
+      labels.add("re-entrant add")
+    elif op == "setkeep":
+      hist.append("keep=%r" % (stp[1],))
+      mix.keep = stp[1]
+      ref.keep = stp[1]
+      keep = stp[1]
+      labels.add("keep changed at run time")
     elif op == "neg":
       delta = stp[1]
       hist.append("add(%r)!" % (delta,))
@@ -467,6 +499,20 @@ def run_control(case):
       labels.add("read:" + how)
   if cs.value is not cur and not same1(cs.value, cur):
     fail("cs.value is %r at the end" % (cs.value,))
+  # what was derived from the ControlStream keeps yielding the last assigned value after the
+  # program drops its own reference to the ControlStream object
+  import gc
+  derived = iter(res) if res is not None else iter(cs)
+  cs = target = res = None
+  gc.collect()
+  try:
+    tail = [next(derived) for _ in range(3)]
+  except StopIteration:
+    fail("the stream derived from the ControlStream ended once the ControlStream object itself was released")
+  exp = [g(cur, period[(j + i) % len(period)]) for i in range(3)] if expr is not None else [cur] * 3
+  if not all(same1(a, b) for a, b in zip(tail, exp)):
+    fail("after the ControlStream object was released the derived stream gave %r, expected %r" % (tail, exp))
+  labels.add("owner released")
   return {"nontrivial": nontrivial, "labels": sorted(labels)}
 
 
@@ -497,9 +543,13 @@ def _steps(delta, val, maxlen, maxdata):
   nxt = st.tuples(st.just("next"), st.integers(1, 4))
   loop = st.tuples(st.just("for"), st.integers(0, 4))
   take = st.tuples(st.just("take"), st.integers(0, 5))
-  table = {"add": add, "neg": neg, "next": nxt, "for": loop, "take": take}
+  chain = st.tuples(st.just("add_chain"), delta, st.lists(val, max_size=maxdata), delta,
+                    st.lists(val, min_size=1, max_size=maxdata))
+  setkeep = st.tuples(st.just("setkeep"), st.booleans())
+  table = {"add": add, "neg": neg, "next": nxt, "for": loop, "take": take, "add_chain": chain,
+           "setkeep": setkeep}
   # (one_of() would merge repeated alternatives, so the weights go through sampled_from)
-  names = ["add"] * 7 + ["next"] * 2 + ["for", "take", "neg"]
+  names = ["add"] * 7 + ["next"] * 2 + ["for", "take", "neg", "add_chain", "setkeep"]
   return st.lists(st.sampled_from(names).flatmap(lambda nm: table[nm]), max_size=maxlen)
 
 
